@@ -1,8 +1,10 @@
 (* Model of the two persistence back-ends and of restore_from_checkpoint.
-     black_it/utils/json_pandas_checkpointing.py : load_calibrator_state 40-102, load_samplers_id_table 105-117,
-                                                    save_calibrator_state 120-259 (five files, HDF5 appended in place)
-     black_it/calibrator.py                       : restore_from_checkpoint 246-325, create_checkpoint 498-538
-     black_it/utils/sqlite3_checkpointing.py      : load_calibrator_state 198-285, save_calibrator_state 288-391
+     black_it/utils/json_pandas_checkpointing.py (tree 8564019) : _commit_checkpoint 69-87, load_calibrator_state 90-163,
+                                                    load_samplers_id_table 166-178, save_calibrator_state 181-313
+                                                    (four data files, HDF5 appended in place, then the json WITH THEIR DIGESTS,
+                                                    written last under a temporary name and moved into place)
+     black_it/calibrator.py                       : restore_from_checkpoint 248-325, create_checkpoint 499-538
+     black_it/utils/sqlite3_checkpointing.py      : load_calibrator_state 200-285, save_calibrator_state 288-391
    Executable definitions only.  The model follows the REPAIRED code (fixes.d/C04-*.patch):
      - stale-series      : the HDF5 rows already on disk are kept only when they are a prefix of the series being saved
                            (h5_write); the writer of the pinned tree is kept as h5_write_legacy for the refutation
@@ -26,10 +28,11 @@ Inductive cexn :=
 | ExModelName   (* the model provided appears to be different from the one present in the database *)
 | ExSchema      (* SchemaVersionMismatchError *)
 | ExNoTable     (* sqlite3.OperationalError: no such table: checkpoint *)
-| ExNoRow.      (* TypeError: cannot unpack non-iterable NoneType (fetchone() on an empty table) *)
+| ExNoRow       (* TypeError: cannot unpack non-iterable NoneType (fetchone() on an empty table) *)
+| ExInconsistent. (* InconsistentCheckpointError: a data file does not have the digest recorded in the json *)
 Definition cexn_code (e : cexn) : nat :=
   match e with ExPickle => 1 | ExMissing => 2 | ExDecode => 3 | ExKey => 4 | ExFrame => 5 | ExStack => 6 | ExShape => 7
-             | ExModelName => 8 | ExSchema => 9 | ExNoTable => 10 | ExNoRow => 11 end.
+             | ExModelName => 8 | ExSchema => 9 | ExNoTable => 10 | ExNoRow => 11 | ExInconsistent => 12 end.
 
 Inductive result (A : Type) := Ok (a : A) | Raise (e : cexn).
 Arguments Ok {A} a.
@@ -55,6 +58,8 @@ Section Ckpt.
   Variables Str Gen Sched Loss : Type.                 (* str; bit_generator.state dict; scheduler and loss objects *)
   Variable str_eqb : Str -> Str -> bool.
   Variables JsonT PSched PLoss CsvT : Type.            (* the texts / byte strings found in the files *)
+  Variable Dg : Type.                                  (* a SHA-256 digest *)
+  Variable Dg_eqb : Dg -> Dg -> bool.
 
   Definition row := list F.                            (* one row of series_samp, flattened (E*N*D floats) *)
   Definition rows_eqb (a b : list row) : bool := list_eqb (list_eqb F_eqb) a b.
@@ -82,7 +87,9 @@ Section Ckpt.
     j_E : nat; j_N : nat; j_D : nat; j_prec : option nat; j_verbose : bool;
     j_saving : option Str; j_seed : option Z; j_gen : Gen; j_model : Str;
     j_batch : nat; j_nsampled : nat; j_njobs : nat;
-    j_table : option (list (Str * nat))                  (* absent in checkpoints written before c25ce62 *)
+    j_table : option (list (Str * nat));                 (* absent in checkpoints written before c25ce62 *)
+    j_files : option (Dg * Dg * Dg * Dg)                 (* files_sha256: scheduler pickle, loss pickle, csv, h5 - absent in
+                                                            checkpoints written before 8564019 (then nothing is checked) *)
   }.
   Definition csvrow := (F * Z * Z * list F)%type.        (* losses_samp, batch_num_samp, method_samp, params_samp_0.. *)
   Record csvtable := mkTab { t_ncols : nat; t_rows : list csvrow }.   (* t_ncols = number of params_samp_<d> columns *)
@@ -101,6 +108,13 @@ Section Ckpt.
   Definition set_loss (f : folder) (x : option PLoss) := mkF (f_json f) (f_sched f) (Some x) (f_csv f) (f_h5 f).
   Definition set_csv (f : folder) (x : CsvT) := mkF (f_json f) (f_sched f) (f_loss f) (Some x) (f_h5 f).
   Definition set_h5 (f : folder) (x : h5file) := mkF (f_json f) (f_sched f) (f_loss f) (f_csv f) (Some x).
+
+  (* SHA-256 of the four data files as they are in the folder (a truncated pickle has a digest too) *)
+  Variable dg_s : option PSched -> Dg.
+  Variable dg_l : option PLoss -> Dg.
+  Variable dg_c : CsvT -> Dg.
+  Variable dg_h : h5file -> Dg.
+  Definition Dg_eqb_refl : Prop := forall d, Dg_eqb d d = true.
 
   (* ------------------------------------------------------------------ codecs (external) and their contracts *)
   Variable jenc : jparams -> JsonT.                      (* json.dump(..., cls=NumpyArrayEncoder) *)
@@ -157,9 +171,9 @@ Section Ckpt.
     end.
 
   (* ------------------------------------------------------------------ save (create_checkpoint -> save_calibrator_state) *)
-  Definition jparams_of (s : state) : jparams :=
+  Definition jparams_of (s : state) (dgs : Dg * Dg * Dg * Dg) : jparams :=
     mkJ (s_bounds s) (s_precision s) (s_real s) (s_E s) (s_N s) (s_D s) (s_prec s) (s_verbose s) (s_saving s) (s_seed s)
-        (s_gen s) (s_model s) (s_batch s) (s_nsampled s) (s_njobs s) (Some (s_table s)).
+        (s_gen s) (s_model s) (s_batch s) (s_nsampled s) (s_njobs s) (Some (s_table s)) (Some dgs).
 
   Fixpoint zip4 (a : list F) (b c : list Z) (d : list (list F)) : list csvrow :=
     match a, b, c, d with
@@ -176,12 +190,16 @@ Section Ckpt.
 
   Inductive sresult := SOk (f : folder) | SRaise (e : cexn) (f : folder).   (* a raise leaves what was written so far *)
 
+  (* _commit_checkpoint: digests of the four files as found in the folder, json written to calibration_params.json.tmp
+     and moved over calibration_params.json (one atomic step: the json slot changes only here) *)
+  Definition commit (f : folder) (s : state) (bs : option PSched) (bl : option PLoss) (ct : CsvT) (h : h5file) : folder :=
+    set_json f (jenc (jparams_of s (dg_s bs, dg_l bl, dg_c ct, dg_h h))).
+
   Definition save_with (w : option h5file -> shape3 -> list row -> result h5file) (f : folder) (s : state) : sresult :=
-    let f1 := set_json f (jenc (jparams_of s)) in                                  (* open("w"); json.dump *)
     match pick_s (s_sched s) with
-    | None => SRaise ExPickle (set_sched f1 None)                                  (* open("wb") truncates, dump raises *)
+    | None => SRaise ExPickle (set_sched f None)                                   (* open("wb") truncates, dump raises *)
     | Some bs =>
-      let f2 := set_sched f1 (Some bs) in
+      let f2 := set_sched f (Some bs) in
       match pick_l (s_loss s) with
       | None => SRaise ExPickle (set_loss f2 None)
       | Some bl =>
@@ -191,7 +209,7 @@ Section Ckpt.
         | Some t =>
           let f4 := set_csv f3 (csv_print t) in                                    (* to_csv *)
           match w (f_h5 f) (s_sshape s) (s_series s) with
-          | Ok h => SOk (set_h5 f4 h)
+          | Ok h => SOk (commit (set_h5 f4 h) s (Some bs) (Some bl) (csv_print t) h)
           | Raise e => SRaise e f4
           end
         end
@@ -212,6 +230,32 @@ Section Ckpt.
   Definition c_method (r : csvrow) : Z := snd (fst r).
   Definition c_params (r : csvrow) : list F := snd r.
 
+  (* load 104-113: every file named in files_sha256 is read and hashed, in the order of the dictionary *)
+  Definition check_digests (f : folder) (dgs : option (Dg * Dg * Dg * Dg)) : option cexn :=
+    match dgs with
+    | None => None
+    | Some (d1, d2, d3, d4) =>
+      match f_sched f with
+      | None => Some ExMissing
+      | Some bs =>
+        if negb (Dg_eqb (dg_s bs) d1) then Some ExInconsistent else
+        match f_loss f with
+        | None => Some ExMissing
+        | Some bl =>
+          if negb (Dg_eqb (dg_l bl) d2) then Some ExInconsistent else
+          match f_csv f with
+          | None => Some ExMissing
+          | Some ct =>
+            if negb (Dg_eqb (dg_c ct) d3) then Some ExInconsistent else
+            match f_h5 f with
+            | None => Some ExMissing
+            | Some h => if negb (Dg_eqb (dg_h h) d4) then Some ExInconsistent else None
+            end
+          end
+        end
+      end
+    end.
+
   Definition load (f : folder) : result loaded :=
     match f_json f with
     | None => Raise ExMissing
@@ -219,6 +263,9 @@ Section Ckpt.
       match jdec jt with
       | None => Raise ExDecode
       | Some j =>
+        match check_digests f (j_files j) with
+        | Some e => Raise e
+        | None =>
         match f_csv f with
         | None => Raise ExMissing
         | Some ct =>
@@ -257,6 +304,7 @@ Section Ckpt.
               end
             end
           end
+        end
         end
       end
     end.
@@ -336,7 +384,8 @@ Section Ckpt.
                        (option_map SqlReal (s_prec s)) (if s_verbose s then 1 else 0)
                        (s_saving s) (s_seed s) (s_gen s) (s_model s) bs bl (s_batch s)
                        (s_pdims s) (s_params s) (s_losses s) (mkH5 (s_sshape s) (s_series s)) (s_bnums s) (s_methods s) (s_dts s) in
-        (* PRAGMA user_version=3; CREATE TABLE IF NOT EXISTS; DELETE FROM checkpoint; INSERT; COMMIT *)
+        (* PRAGMA user_version=3; CREATE TABLE IF NOT EXISTS; then, in ONE transaction (584c2dd): DELETE FROM checkpoint;
+           INSERT; COMMIT - a failure rolls back to the previous row (C06) *)
         Ok (mkDb SCHEMA_VERSION (Some [r]))
       end
     end.
